@@ -8,7 +8,14 @@ Fc(n, ok) == IF ok THEN <<>> ELSE <<n>>
 Exp(r) == IF r.enums # <<>> THEN (IF \E i \in DOMAIN r.enums : r.enums[i] = r.s THEN "yes" ELSE "no")
           ELSE IF r.special = "endseqno" /\ r.s = "0" THEN "yes"
           ELSE InLex(r.type, r.s, r.soh)
+\* "optional minus sign": for the numeric types that allow one, prefixing a minus to an unsigned string must not
+\* change the outcome (record kind "pair": res = outcome for s, resneg = outcome for "-" \o s)
+PairVerdict(r) ==
+    [id |-> r.id, exp |-> "pair",
+     fails |-> Fc("V_sign_independent", (r.res = "true") = (r.resneg = "true"))
+            \o Fc("V_error_class", (r.res # "true" => r.res = "exc:FIXMessageError") /\ (r.resneg # "true" => r.resneg = "exc:FIXMessageError"))]
 Verdict(r) ==
+    IF "resneg" \in DOMAIN r THEN PairVerdict(r) ELSE
     LET e == Exp(r) IN
     [id |-> r.id, exp |-> e,
      fails |-> Fc("V_accepts_member", e = "yes" => r.res = "true") \o Fc("V_rejects_non_member", e = "no" => r.res # "true")
